@@ -54,7 +54,7 @@ def floors(tier):
     return {"histories": 1500, "configs_run": 9000, "operations": 50000, "handler_successes": 5000, "handler_failures": 1000,
             "plan:ok": 300, "plan:fail_once": 300, "plan:fail_always": 300, "docs_with_3plus_fragments": 500,
             "metaschema_refs_resolved": 2000, "store_doc_refs_resolved": 2000, "evictions_observed": 200,
-            "wrapped_as_RefResolutionError": 1000}
+            "wrapped_as_RefResolutionError": 1000, "handler_docs_declaring_an_id": 500}
 
 
 def make_world(rng, d):
@@ -66,6 +66,7 @@ def make_world(rng, d):
     props = {}
     refs = []
     frag3 = 0
+    declared_ids = 0
     for k in range(ndocs):
         url = R.HANDLER_DIR + "d%d.json" % k
         defs = {}
@@ -73,6 +74,15 @@ def make_world(rng, d):
         for j in range(nfr):
             defs["f%d" % j] = g.keyword_schema(rng.choice(["type", "minimum", "maxLength", "enum"]))
         hdocs[url] = {"definitions": defs, "type": rng.choice(["object", "array", "string", "integer"])}
+        # a retrieved document may declare an id of its own - its own URL, another document's URL, a store
+        # document's, a metaschema's, or an unrelated one; that must not change what any URL designates
+        r = rng.random()
+        if r < 0.5:
+            hdocs[url][idk] = rng.choice([url, R.HANDLER_DIR + "d%d.json" % ((k + 1) % ndocs), R.HANDLER_DIR + "d0.json",
+                                          "http://store.example/lib/s0.json", "http://store.example/lib/s1.json",
+                                          "http://json-schema.org/draft-0%d/schema#" % d, "http://elsewhere.example/x.json",
+                                          "d%d.json" % ((k + 1) % ndocs), "../lib/d0.json"])
+            declared_ids += 1
         if nfr >= 3:
             frag3 += 1
         spellings = [url, url + "#"] + [url + "#/definitions/f%d" % j for j in range(nfr)]
@@ -108,7 +118,8 @@ def make_world(rng, d):
             if rng.random() < 0.6:
                 inst[n] = rng.choice([1, "s", {}, [], None, 2.5, {"type": "string"}, "object", -1])
         insts.append(inst)
-    return dict(d=d, schema=S, hdocs=hdocs, store=store, refs=refs, instances=insts, frag3=frag3, metas=metas)
+    return dict(d=d, schema=S, hdocs=hdocs, store=store, refs=refs, instances=insts, frag3=frag3, metas=metas,
+                declared_ids=declared_ids)
 
 
 def gen_history(rng, w):
@@ -205,6 +216,7 @@ def check_history(ctx, w, ops, plan):
     for p in plan.values():
         ctx.count("plan:" + p["mode"])
     ctx.count("docs_with_3plus_fragments", w["frag3"])
+    ctx.count("handler_docs_declaring_an_id", w.get("declared_ids", 0))
     outs = {}
     for cr, cache in CONFIGS:
         ctx.count("configs_run")
